@@ -536,7 +536,7 @@ Proof.
     intros Htr. split; [destruct k' as [|c t]; [discriminate|]; injection Ek' as E1 _; eapply to_lower_alpha; [exact E1|reflexivity]|].
     destruct (spfexists_plain D X domain d rest Hd Hr) as [ql Ef]. fold mk in Ef.
     eapply dns_sim; [reflexivity|exact Ef|exact Hq| |exact Htr].
-    intros E. apply Nat.leb_gt in E. unfold eval_dns_mech.
+    intros E. apply Nat.leb_gt in E. clear - E. unfold eval_dns_mech.
     destruct (d_a D d) as [e|[|x l]]; [apply addr_result_mrel; auto; lia|cbn; repeat split; lia|cbn; repeat split; lia]. }
   (* ip4 *)
   destruct (is_prefix KW_IP4 (lowerb tok)) eqn:Eip4.
@@ -600,7 +600,7 @@ Proof.
     intros Htr. split; [destruct k as [|c t]; [discriminate|]; injection Ek as E1 _; eapply to_lower_alpha; [exact E1|reflexivity]|].
     destruct (spfptr_plain D X domain args rest d Sh Hr) as [ql Ef]. fold mk in Ef.
     eapply dns_sim; [reflexivity|exact Ef|exact Hq| |exact Htr].
-    intros E. apply Nat.leb_gt in E. unfold eval_dns_mech.
+    intros E. apply Nat.leb_gt in E. clear - E. unfold eval_dns_mech.
     destruct (s_remotehost X); [cbn; repeat split; lia|].
     destruct (d_name D (s_client X)) as [e|names]; [exact I|]. cbn [andb].
     set (vs := ptr_validated D X (firstn 10 names)).
@@ -624,7 +624,7 @@ Proof.
     intros Htr. split; [destruct k as [|c t]; [discriminate|]; injection Ek as E1 _; eapply to_lower_alpha; [exact E1|reflexivity]|].
     destruct (spfmx_plain D X domain args rest d a b Ho Hr) as [ql Ef]. fold mk in Ef.
     eapply dns_sim; [reflexivity|exact Ef|exact Hq| |exact Htr].
-    intros E. apply Nat.leb_gt in E. unfold eval_dns_mech.
+    intros E. apply Nat.leb_gt in E. clear - E. unfold eval_dns_mech.
     destruct (d_mx D (target_of domain d)) as [e| | |l]; [apply addr_result_mrel; auto; lia|cbn; repeat split; lia|cbn; repeat split; lia|].
     destruct (65536 <=? fst (hd (0, []) l)); [cbn; repeat split; lia|]. cbn [andb].
     destruct (Nat.leb 10 (length l)) eqn:Q; [exact I|].
@@ -656,7 +656,7 @@ Proof.
   intros Htr. split; [destruct k as [|c t]; [discriminate|]; injection Ek as E1 _; eapply to_lower_alpha; [exact E1|reflexivity]|].
   destruct (spfa_plain D X domain args rest d a b Ho Hr) as [ql Ef]. fold mk in Ef.
   eapply dns_sim; [reflexivity|exact Ef|exact Hq| |exact Htr].
-  intros E. apply Nat.leb_gt in E. unfold eval_dns_mech.
+  intros E. apply Nat.leb_gt in E. clear - E. unfold eval_dns_mech.
   destruct (addr_lookup D X (target_of domain d)) as [e|l]; [apply addr_result_mrel; auto; lia|].
   apply res_match_mrel. lia.
 Qed.
